@@ -12,22 +12,30 @@ DESIGN_REF = "DESIGN.md section 5, C18"
 TECHNIQUE = ("Coq theorems about an executable specification of immediate dominators (dominance decided by removing the "
              "candidate and recomputing reachability): the reachability closure is proved equal to path existence (closedness "
              "of the fixed point, induction on paths) and the returned node is proved to satisfy the standard definition; "
-             "the Lengauer-Tarjan code itself is not modelled - its output is compared with the proved specification, "
-             "evaluated by the kernel, on all small rooted digraphs and on random larger ones (translation validation)")
+             "the Lengauer-Tarjan code is modelled as it runs (depth-first numbering with predecessor sets, path compression, "
+             "semidominators with buckets, final pass) and proved equal to the specification on every graph of up to four "
+             "nodes by a kernel sweep over that finite domain; beyond that its output - and the model's - is compared with the "
+             "proved specification, evaluated by the kernel, on random larger graphs (translation validation)")
 LEVEL_TEXT = ("Partial. Unbounded proof about the specification: for every graph and entry, when spec_idom returns a table, "
               "its keys are exactly the nodes reachable from the entry, the entry has no dominator, and every other node is "
               "mapped to a node d such that every path from the entry to it passes through d, d is not the node itself, and "
-              "every other node with that property also lies on every path to d. What is NOT proved is that dom_lt computes "
-              "this function for every graph: that is decided per graph, by evaluating the proved specification inside Coq "
-              "and comparing with the real output - exhaustively for all rooted digraphs with up to 3 (quick) or 4 "
-              "(thorough) nodes, and on random graphs (loops, irreducible regions, catch edges, up to 60 nodes - the specification is cubic and worse, larger graphs are checked by the Python oracle only).")
-LEVEL_NOTE = ("Trusted: Coq kernel; coq/Dad/DomModel.v as the statement of what immediate_dominators returns (node -> idom "
+              "every other node with that property also lies on every path to d. Proof over a finite domain: the model of "
+              "dom_lt (coq/Dad/LtModel.v) ends and returns exactly that table on EVERY graph of one to four nodes (successor "
+              "lists in increasing order, every node as entry: 65536 x 4 graphs of four nodes, swept by the kernel; "
+              "C18_dom_lt_meets_the_definition_up_to_four_nodes). What is NOT proved is that dom_lt computes "
+              "this function for every larger graph: that is decided per graph, by evaluating the proved specification and the "
+              "model of dom_lt inside Coq and comparing both with the real output - exhaustively for all digraphs with up to 3 "
+              "(quick) or 4 (thorough) nodes, and on random graphs (loops, irreducible regions, catch edges, up to 60 nodes - the specification is cubic and worse, larger graphs are checked by the Python oracle only).")
+LEVEL_NOTE = ("Trusted: Coq kernel; coq/Dad/LtModel.v as a rendering of dom_lt (dictionaries as functions, the sets pred[w] and "
+              "bucket[v] as lists in insertion order - Python's order depends on memory addresses, the result does not); "
+              "coq/Dad/DomModel.v as the statement of what immediate_dominators returns (node -> idom "
               "for reachable nodes, None for the entry, no entry for unreachable nodes); the harness tools/props/c18.py "
               "(graph construction shared with C19).")
 TRUSTED = ["executable specification coq/Dad/DomModel.v (proved against the path definition of dominance)",
+           "hand-written model coq/Dad/LtModel.v of dom_lt",
            "correspondence harness tools/props/c18.py, tools/props/c19.py (graph builders)"]
 
-COQ_HEADER = "Require Import V.Dad.DomModel."
+COQ_HEADER = "Require Import V.Dad.DomModel V.Dad.LtModel."
 
 
 def all_graphs(n):
@@ -190,7 +198,7 @@ def stats(cases, results):
 
 STREAMS = [
     {"name": "all-small-graphs", "gen": gen_small, "impl": impl, "coq_header": COQ_HEADER, "coq_type": "graph * Z", "coq_input": coq_input,
-     "coq_obs": "obs_idom", "model_vo": "Dad/DomModel.vo", "pinned": False, "oracle": oracle, "stats": stats, "shard": 400},
+     "coq_obs": "obs_both", "canon": lambda r: r if isinstance(r, Err) else [r, r], "model_vo": "Dad/LtModel.vo", "pinned": False, "oracle": oracle, "stats": stats, "shard": 400},
     {"name": "random-graphs", "gen": gen_random, "impl": impl, "coq_header": COQ_HEADER, "coq_type": "graph * Z", "coq_input": coq_input,
-     "coq_obs": "obs_idom", "model_vo": "Dad/DomModel.vo", "pinned": False, "oracle": oracle, "stats": stats, "shard": 150, "case_timeout": 300},
+     "coq_obs": "obs_both", "canon": lambda r: r if isinstance(r, Err) else [r, r], "model_vo": "Dad/LtModel.vo", "pinned": False, "oracle": oracle, "stats": stats, "shard": 150, "case_timeout": 300},
 ]
